@@ -122,7 +122,7 @@ Definition bstate (r : book * N * list (N * N) * list (N * N)) : book := fst (fs
 
 Lemma bstep_exact : forall b o, book_exact b -> open_collision_free b o -> book_exact (bstate (bstep b o)).
 Proof.
-  intros b o H Hfree. unfold bstate. destruct o as [peer id | peer id | peer id | peer id serial tag | serial]; simpl.
+  intros b o H Hfree. unfold bstate. destruct o as [peer id | peer id | peer id | peer id | peer id serial tag | serial]; simpl.
   - destruct ((0 <? maxc b)%Z && (maxc b <=? count b)%Z)%bool; simpl; [exact H|].
     destruct H as [Hnd Hc]. simpl in Hfree. split; simpl.
     + unfold mset. simpl. rewrite mdel_absent by auto. constructor; auto.
@@ -136,6 +136,7 @@ Proof.
           + auto. }
       congruence.
     + unfold mset. simpl. rewrite mdel_absent by auto. rewrite Hc. rewrite Zpos_P_of_succ_nat. lia.
+  - destruct ((0 <? maxc b)%Z && (maxc b <=? count b)%Z)%bool; simpl; exact H.
   - pose proof (close_conn_exact fuel0 b id peer H) as H'. destruct (close_conn fuel0 b id peer). auto.
   - pose proof (close_conn_exact fuel0 b id peer H) as H'. destruct (close_conn fuel0 b id peer). auto.
   - destruct (negb (N.to_nat serial <? length (opened b))%nat); simpl; auto.
